@@ -1547,10 +1547,6 @@ func (p *Posix) CompleteMultipartUpload(ctx context.Context, input *s3.CompleteM
 
 	userMetaData := make(map[string]string)
 	objMeta := p.loadObjectMetaData(bucket, upiddir, nil, userMetaData)
-	err = p.storeObjectMetadata(f.File(), bucket, object, objMeta)
-	if err != nil {
-		return nil, err
-	}
 
 	objname := filepath.Join(bucket, object)
 	dir := filepath.Dir(objname)
@@ -1576,6 +1572,18 @@ func (p *Posix) CompleteMultipartUpload(ctx context.Context, input *s3.CompleteM
 		if err != nil {
 			return nil, fmt.Errorf("create object version: %w", err)
 		}
+	}
+
+	// metadata stores that keep the attributes apart from the file
+	// still hold the attributes of the object being replaced
+	err = p.meta.DeleteAttributes(bucket, object)
+	if err != nil {
+		return nil, fmt.Errorf("delete replaced object attributes: %w", err)
+	}
+
+	err = p.storeObjectMetadata(f.File(), bucket, object, objMeta)
+	if err != nil {
+		return nil, err
 	}
 
 	// if the versioning is enabled, generate a new versionID for the object
@@ -2872,6 +2880,13 @@ func (p *Posix) PutObject(ctx context.Context, po s3response.PutObjectInput) (s3
 			return s3response.PutObjectOutput{}, err
 		}
 		versionID = nullVersionId
+	}
+
+	// metadata stores that keep the attributes apart from the file
+	// still hold the attributes of the object being replaced
+	err = p.meta.DeleteAttributes(*po.Bucket, *po.Key)
+	if err != nil {
+		return s3response.PutObjectOutput{}, fmt.Errorf("delete replaced object attributes: %w", err)
 	}
 
 	for k, v := range po.Metadata {
